@@ -532,14 +532,14 @@ impl Property for C14 {
     }
     fn plan(&self, tier: Tier) -> Vec<Segment> {
         vec![
-            Segment::random("BitVec", tier.pick(60_000, 800_000), &[0], 16, 80),
-            Segment::random("BitFieldVec", tier.pick(90_000, 1_200_000), &[1], 16, 80),
+            Segment::random("BitVec", tier.pick(300_000, 6_400_000), &[0], 16, 80),
+            Segment::random("BitFieldVec", tier.pick(450_000, 9_600_000), &[1], 16, 80),
             // the parallel bulk operations split their work only from 200000 words upward
             Segment::enumerated("parallel-bulk-ops-over-large-dirty-storage", tier.pick(12, 72), &[0xF1]),
         ]
     }
     fn rule(&self) -> &'static str {
-        "case = (vector kind BitVec / BitFieldVec<u8..u128,usize>, contents, width, length, garbage class (all ones / random / a single bit just past the end) in every backend bit at or beyond len*width, 0..3 extra trailing words, op list) decoded from bytes; the vector is placed over the dirty image by from_raw_parts. Read side: get, count_ones/zeros, par_count_ones, iter, iter_ones, iter_zeros, ==, to_owned, rank_hinted/select_hinted/select_zero_hinted within range, forward and reverse unchecked iterators, atomic count/iter answer exactly as over clean storage (dirty == clean, clean == dirty, dirty == differently-dirty). Write side: after every mutator (set, fill, flip, reset, par_*, copy into it, apply_in_place, writes through try_chunks_mut views, set_atomic, swap, reset_atomic, atomic fill/flip) the whole backend (as_slice / AsRef) equals model bits inside the logical region and the original garbage everywhere else. Non-trivial: garbage non-zero and (len*width not a multiple of the word size or extra words present); distinct = distinct hash of the decoded case."
+        "case = (vector kind BitVec / BitFieldVec<u8..u128,usize>, contents, width, length, garbage class (all ones / random / a single bit just past the end) in every backend bit at or beyond len*width, 0..3 extra trailing words, op list) decoded from bytes; the vector is placed over the dirty image by from_raw_parts. Read side: get, count_ones/zeros, par_count_ones, iter, iter_ones, iter_zeros, ==, to_owned, rank_hinted/select_hinted/select_zero_hinted within range, forward and reverse unchecked iterators, atomic count/iter answer exactly as over clean storage (dirty == clean, clean == dirty, dirty == differently-dirty). Write side: after every mutator (set, fill, flip, reset, par_*, copy into it, apply_in_place, writes through try_chunks_mut views, set_atomic, swap, reset_atomic, atomic fill/flip) the whole backend (as_slice / AsRef) equals model bits inside the logical region and the original garbage everywhere else. Plus an enumerated segment running every parallel bulk operation over 12.8-64 Mbit dirty backends with 0..400001 spare words (above rayon's split threshold). Non-trivial: garbage non-zero and (len*width not a multiple of the word size or extra words present); distinct = distinct hash of the decoded case."
     }
     fn run(&self, data: &[u8], cx: &mut Ctx) -> R {
         let (mode, rest) = data.split_first().unwrap_or((&0, &[]));
